@@ -71,12 +71,12 @@ Section Plain.
 
   Hypothesis Hold : forall t, length (old t) = N.to_nat (tsize t).
 
-  Lemma plain_writer_ok :
+  Lemma plain_writer_ok : forall fr : bool,
     writer_ok (list byte) (list byte) (list byte) N unit (fun d => N.of_nat (length d))
-              tsize ssize p_open p_write p_save p_final p_tell p_result true
+              tsize ssize p_open p_write p_save p_final p_tell p_result fr
               p_prepare p_copy_old old (fun c d => c ++ d) [] p_abs p_inv p_raw_ok p_covers p_finished.
   Proof.
-    constructor.
+    intros fr. constructor.
     - (* open from scratch *)
       intros f raw Hok. exists 0%N, raw. unfold p_open, p_inv, p_abs, p_tell, p_raw_ok in *. simpl.
       repeat split; auto; lia.
@@ -168,7 +168,7 @@ Section Fresh.
   Proof.
     intros msgs d0 Sf Hideal Hsized ck d d' sched stop Hoff Hcrash.
     pose proof (resume_equiv_lemma _ _ _ _ _ _ blocksize _ _ nfiles range_data bs_data _ _ _ _ _ _ _ is_overlay _ _ _ emit src_resume
-                  _ _ _ _ _ _ _ (plain_writer_ok ssize tsize old Hold) H_wire msgs d0 Sf Hideal Hsized) as H.
+                  _ _ _ _ _ _ _ (plain_writer_ok ssize tsize old Hold true) H_wire msgs d0 Sf Hideal Hsized) as H.
     assert (Hd0 : forall g, p_raw_ok ssize g (bowl_create (list byte) true (p_prepare ssize) d0 g)).
     { intros g. simpl. unfold p_raw_ok, p_prepare, resize, zeros. rewrite app_length, firstn_length, repeat_length. lia. }
     specialize (H Hd0 ck d d' sched stop Hoff (fresh_crash_ok _ _ _ Hcrash)).
